@@ -1,6 +1,6 @@
 (* Proofs/ViewsBase.v -- lemmas and tactics shared by the per-type proofs of
    C01 (getters safe and inside the view) and C02 (getter = RFC position). *)
-From PV Require Export Base.Prelude Base.Slice Model.ViewsBase Model.Views Model.ViewsKnown Spec.Views.
+From PV Require Export Base.Prelude Base.Slice Model.ViewsBase Model.Views Model.Views2 Model.ViewsVar Model.ViewsKnown Spec.Views Spec.Views2.
 Open Scope N_scope.
 
 (* ---------------------------------------------------------------- *)
@@ -152,9 +152,13 @@ Ltac sweep :=
 
 (* turn every index / slice expression whose bound follows from the context into its value *)
 Ltac slices :=
-  repeat first
-    [ rewrite idx_ok by lia | rewrite be16_at_ok by lia | rewrite be32_at_ok by lia
-    | rewrite sl_ok by lia | rewrite slfrom_ok by lia ];
+  repeat (first
+    [ match goal with |- context [idx ?s ?i] => rewrite (idx_ok s i) by lia end
+    | match goal with |- context [be16_at ?s ?a] => rewrite (be16_at_ok s a) by lia end
+    | match goal with |- context [be32_at ?s ?a] => rewrite (be32_at_ok s a) by lia end
+    | match goal with |- context [sl ?s ?a ?b] => rewrite (sl_ok s a b) by lia end
+    | match goal with |- context [slfrom ?s ?a] => rewrite (slfrom_ok s a) by lia end ];
+    cbn [bind]);
   cbn [bind].
 
 Ltac inside_tac :=
@@ -169,12 +173,13 @@ Proof. constructor. Qed.
 
 (* len_only from the spec equation (both views outside the known classes) *)
 Lemma len_only_of_spec fs t st v v' :
-  getters_spec fs t st v -> getters_spec fs t st v' -> view v = view v' -> getters_len_only fs t v v'.
+  getters_spec fs t st v -> getters_spec fs t st v' -> view v = view v' -> getters_len_only fs t st v v'.
 Proof.
   unfold getters_spec, getters_len_only. intros H. revert v'. induction H as [|ng ns t st [Hn Hs] Hr IH]; intros v' H' Hv.
   - constructor.
   - inversion H' as [|? ? ? ? [Hn' Hs'] Hr']; subst. constructor.
-    + intros K K'. rewrite (Hs K), (Hs' K'), Hv. reflexivity.
+    + intros Hsome K K'. destruct (snd ns) as [s|] eqn:E; [|exfalso; apply Hsome; exact E].
+      rewrite (Hs s eq_refl K), (Hs' s eq_refl K'), Hv. reflexivity.
     + apply IH; assumption.
 Qed.
 
@@ -211,7 +216,8 @@ Qed.
 (* per-getter tactics *)
 
 Ltac unfold_getter :=
-  autounfold with vg; cbn [calls]; unfold IP4_IHL_n, IP4_TotalLen_n, Ether_HeaderLen_n, Ether_EtherType_n; unfold rbe16, rbe32, rbyte, rbit, rsl, rfrom, rarr.
+  autounfold with vg; cbn [calls]; unfold IP4_IHL_n, IP4_TotalLen_n, Ether_HeaderLen_n, Ether_EtherType_n,
+    IP6_PayloadLen_n, HBH_Len_n; unfold rbe16, rbe32, rbyte, rbit, rsl, rfrom, rarr.
 
 Ltac c01_fixed :=
   intros _; unfold getter_ok; unfold_getter; slices; split; [apply safe_Ok | inside_tac].
@@ -254,9 +260,17 @@ Ltac c02_fixed B L :=
   try reflexivity; strip; try reflexivity; try lia.
 
 Ltac by_sweep :=
-  match goal with H : ?x < 256 |- _ => revert H; generalize x; timeout 20 sweep end.
+  match goal with H : ?x < 256 |- _ =>
+    revert H; generalize x;
+    lazymatch goal with |- context [nth _ _ _] => fail "more than one byte" | _ => idtac end;
+    timeout 20 sweep end.
 
-Ltac each_spec := repeat (apply Forall2_cons; [cbn [fst snd]; split; [reflexivity|] | ]); [ .. | apply Forall2_nil].
+Ltac each_spec :=
+  repeat (apply Forall2_cons;
+          [cbn [fst snd sp nospec]; split; [reflexivity|];
+           let s := fresh "s" in let Hs := fresh "Hs" in
+           intros s Hs; first [discriminate Hs | injection Hs as <-] | ]);
+  [ .. | apply Forall2_nil].
 
 (* boolean reading of getter_ok, for refutations by computation *)
 Lemma range_in_b v r : range_in v r <-> range_inb v r = true.
@@ -271,3 +285,63 @@ Qed.
 
 Lemma not_getter_ok v g : getter_okb v g = false -> ~ getter_ok v g.
 Proof. intros H Hg. apply getter_ok_b in Hg. congruence. Qed.
+
+Lemma field_be_3 l i : (i + 3 <= List.length l)%nat ->
+  field_be l i 3 = (nth i l 0 * 256 + nth (i + 1) l 0) * 256 + nth (i + 2) l 0.
+Proof.
+  intros H. unfold field_be. rewrite (sub_cons l i 2 0) by lia. rewrite (sub_cons l (S i) 1 0) by lia.
+  rewrite (sub_cons l (S (S i)) 0 0) by lia. rewrite sub_0.
+  replace (i + 1)%nat with (S i) by lia. replace (i + 2)%nat with (S (S i)) by lia. reflexivity.
+Qed.
+
+Ltac view_fields L ::=
+  repeat first [ rewrite field_be_1 by (rewrite L; lia) | rewrite field_be_2 by (rewrite L; lia)
+               | rewrite field_be_3 by (rewrite L; lia) | rewrite field_be_4 by (rewrite L; lia) ];
+  repeat rewrite nth_view by lia;
+  repeat rewrite sub_view by lia;
+  unfold blen; try rewrite L.
+
+(* spec helper definitions unfolded by c02_fixed *)
+Ltac unfold_spec :=
+  unfold sfield, sflag, srange, srest, scopy, sconst, sreturns, srest_or_nil,
+         first_lla_option, ip4_ihl, ip4_totallen, tcp_hlen, ether_type, hbh_len, llc_control.
+Ltac c02_fixed B L ::=
+  intros _; unfold_getter; slices;
+  unfold_spec; norm_bits; view_fields L;
+  cbn [len arr]; simpl Nat.add; unfold be16, be32; pow_lits; byte_bounds B;
+  try reflexivity; strip; try reflexivity; try lia.
+
+(* getters with guards: case analysis on every condition, slices re-tried in each branch *)
+Ltac c01_go :=
+  slices;
+  first [ match goal with |- context [if ?c then _ else _] => destruct c eqn:? end; c01_go
+        | split; [apply safe_Ok | inside_tac] ].
+Ltac c01_gen := intros _; unfold getter_ok; unfold_getter; unfold orr, andr, lenN; c01_go.
+
+Ltac c02_go B L :=
+  slices; view_fields L; pow_lits; byte_bounds B;
+  first [ match goal with |- context [if ?c then _ else _] => destruct c eqn:? end; c02_go B L
+        | cbn [len arr]; repeat rewrite N.div_1_r in *;
+          try reflexivity; strip; try reflexivity; try lia; try (exfalso; lia) ].
+Ltac c02_gen B L :=
+  intros _; unfold_getter; unfold orr, andr, lenN; unfold_spec; norm_bits;
+  simpl Nat.add; unfold be16, be32; c02_go B L.
+
+Lemma sweep256x2b (f g : N -> N -> bool) :
+  forallb (fun a => forallb (fun b => Bool.eqb (f a b) (g a b)) bytes256) bytes256 = true ->
+  forall a b, a < 256 -> b < 256 -> f a b = g a b.
+Proof.
+  intros H a b Ha Hb. rewrite forallb_forall in H. specialize (H a (in_bytes256 a Ha)).
+  rewrite forallb_forall in H. specialize (H b (in_bytes256 b Hb)). apply Bool.eqb_prop. exact H.
+Qed.
+Ltac sweep2b :=
+  match goal with
+  | |- forall a b, a < 256 -> b < 256 -> @eq bool (@?f a b) (@?g a b) => apply (sweep256x2b f g); vm_compute; reflexivity
+  end.
+
+Lemma skipn_nth_cons {A} (l : list A) off d : (off < List.length l)%nat ->
+  skipn off l = nth off l d :: skipn (S off) l.
+Proof.
+  revert off. induction l as [|x xs IH]; intros off H; simpl in H; [lia|].
+  destruct off as [|off]; [reflexivity|]. simpl. apply IH. lia.
+Qed.
